@@ -49,6 +49,9 @@ imb_quic_aes_gcm(IMB_MGR *state, const struct gcm_key_data *key_data,
                 imb_set_errno(NULL, IMB_ERR_NULL_MBMGR);
                 return;
         }
+        /* reset error status */
+        imb_set_errno(state, 0);
+
         if (key_data == NULL) {
                 imb_set_errno(state, IMB_ERR_NULL_EXP_KEY);
                 return;
